@@ -1,7 +1,6 @@
 package consul
 
 import (
-	"fmt"
 	"log"
 	"sort"
 	"strings"
@@ -10,6 +9,13 @@ import (
 	"github.com/fabiolb/fabio/config"
 	"github.com/hashicorp/consul/api"
 )
+
+// instanceID identifies a service instance cluster wide. The node is part
+// of the id since the ServiceID is only unique per agent. Node and ServiceID
+// are kept apart since both may contain any character, e.g. dots.
+type instanceID struct {
+	node, serviceID string
+}
 
 // ServiceMonitor generates fabio configurations from consul state.
 type ServiceMonitor struct {
@@ -66,15 +72,15 @@ func (w *ServiceMonitor) Watch(updates chan string) {
 // and then finds the ones which have tags with the right prefix to build the config from.
 func (w *ServiceMonitor) makeConfig(checks []*api.HealthCheck) string {
 	// map service name to list of service passing for which the health check is ok
-	m := map[string]map[string]bool{}
+	m := map[string]map[instanceID]bool{}
 	for _, check := range checks {
 		// Make the node part of the id, because according to the Consul docs
 		// the ServiceID is unique per agent but not cluster wide
 		// https://www.consul.io/api/agent/service.html#id
-		name, id := check.ServiceName, fmt.Sprintf("%s.%s", check.Node, check.ServiceID)
+		name, id := check.ServiceName, instanceID{check.Node, check.ServiceID}
 
 		if _, ok := m[name]; !ok {
-			m[name] = map[string]bool{}
+			m[name] = map[instanceID]bool{}
 		}
 		m[name][id] = true
 	}
@@ -108,7 +114,7 @@ func (w *ServiceMonitor) makeConfig(checks []*api.HealthCheck) string {
 }
 
 // serviceConfig constructs the config for all good instances of a single service.
-func (w *ServiceMonitor) serviceConfig(name string, passing map[string]bool) (config []string) {
+func (w *ServiceMonitor) serviceConfig(name string, passing map[instanceID]bool) (config []string) {
 	if name == "" || len(passing) == 0 {
 		return nil
 	}
@@ -126,7 +132,7 @@ func (w *ServiceMonitor) serviceConfig(name string, passing map[string]bool) (co
 
 	for _, svc := range svcs {
 		// check if this instance passed the health check
-		if _, ok := passing[svc.Node+"."+svc.ServiceID]; !ok {
+		if _, ok := passing[instanceID{svc.Node, svc.ServiceID}]; !ok {
 			continue
 		}
 
